@@ -574,9 +574,9 @@ type c15Backend struct {
 	scripts []c15Script // per connection; the last one repeats
 	// guarded by rig.mu
 	overrides []*c15Script // one-shot scripts for the next connections (FIFO)
-	dials    int
-	sessions []*c15Session
-	dialHold map[int]chan struct{}
+	dials     int
+	sessions  []*c15Session
+	dialHold  map[int]chan struct{}
 }
 
 func (b *c15Backend) Name() string   { return b.name }
